@@ -19,6 +19,8 @@ pub fn run(ctx: &mut Ctx) {
         let k = 1 + r.below(6) as usize;
         let mut txs: Vec<Transaction> = (0..k).map(|_| dslgen::gen_tx(&mut r)).collect();
         for t in &mut txs { t.ticker = t.ticker.to_uppercase(); }
+        // every fifth list holds one transaction twice in a row (two identical fills of one order): both must survive
+        if i % 5 == 3 && !txs.is_empty() { let j = (i as usize / 5) % txs.len(); let d = txs[j].clone(); txs.insert(j, d); }
         let text = cgt_core::dsl::transactions_to_dsl(&txs);
         if txs.iter().any(|t| dslgen::tx_wire(t).contains(":USD") || dslgen::tx_wire(t).contains(":EUR")) && text.split(|c: char| !c.is_ascii_digit() && c != '.').any(|w| w.split('.').nth(1).map(|f| f.len() >= 5).unwrap_or(false)) { ctx.ev.nontrivial.insert(text.clone()); }
         // (1) writer vs model
